@@ -99,4 +99,24 @@ theorem propagate_covariant {β : Type} [Field β] (ii : β) (S1 SS H : Mat β n
     simp only [madd, MatD.fn_tab, hab, hab']
     rw [sandwich_add]
 
+/-- **the operator form held in the new basis** (`K, Kd, Λ, Λd` each transformed, as the basis manager does with the
+components of a tensor in operator form) **acts on the transformed operator as the transformed result** -/
+theorem applyOps_covariant (S1 SS K Kd L Ld ρ : Mat α n)
+    (h3 : ∀ x y, ∑ a, SS x a * S1 a y = if x = y then 1 else 0) :
+    applyOps (sandwich S1 SS K) (sandwich S1 SS Kd) (sandwich S1 SS L) (sandwich S1 SS Ld) (sandwich S1 SS ρ)
+      = sandwich S1 SS (applyOps K Kd L Ld ρ) := by
+  unfold applyOps
+  simp only [sandwich_mul S1 SS _ _ h3]
+  rw [sandwich_sub, sandwich_sub, sandwich_add]
+
+/-- **hence the two forms agree in the new basis**: the operator form with transformed components and the transformed
+explicit tensor act identically on every transformed operator (any components, orthogonal `S1 = SSᵀ`) -/
+theorem ops_eq_tensor_in_new_basis (S1 SS K Kd L Ld ρ : Mat α n)
+    (h1 : ∀ x y, ∑ c, S1 c x * S1 c y = if x = y then 1 else 0)
+    (h2 : ∀ x y, ∑ d, SS x d * SS y d = if x = y then 1 else 0)
+    (h3 : ∀ x y, ∑ a, SS x a * S1 a y = if x = y then 1 else 0) :
+    applyOps (sandwich S1 SS K) (sandwich S1 SS Kd) (sandwich S1 SS L) (sandwich S1 SS Ld) (sandwich S1 SS ρ)
+      = apply (transformTwoPass S1 SS (loopTerm K Kd L Ld)) (sandwich S1 SS ρ) := by
+  rw [applyOps_covariant S1 SS K Kd L Ld ρ h3, applyOps_transform S1 SS K Kd L Ld ρ h1 h2]
+
 end QV.Prop
